@@ -76,18 +76,11 @@ class TooManyApps(Exception):
 
 
 def hard_check(s, timeout_ms, *assumptions):
-    """solver.check with a watchdog: some z3 tactics ignore the soft timeout"""
-    import threading
-    ctx = s.ctx
-    timer = threading.Timer(timeout_ms / 1000.0 + 2.0, ctx.interrupt)
-    timer.daemon = True
-    timer.start()
+    """solver.check under the solver's soft timeout (tactic solvers are wrapped in TryFor by their creators)"""
     try:
         return s.check(*assumptions)
     except z3.Z3Exception:
         return z3.unknown
-    finally:
-        timer.cancel()
 
 
 def ackermannize(fs):
@@ -199,7 +192,7 @@ def _nlsat(pc, g, inputs, timeout_ms):
     except TooManyApps:
         return None
     try:
-        s = z3.Then(z3.Tactic("simplify"), z3.Tactic("purify-arith"), z3.Tactic("qfnra-nlsat")).solver()
+        s = z3.TryFor(z3.Then(z3.Tactic("simplify"), z3.Tactic("purify-arith"), z3.Tactic("qfnra-nlsat")), timeout_ms).solver()
         s.set("timeout", timeout_ms)
         s.add(*fs)
         r = hard_check(s, timeout_ms)
